@@ -354,7 +354,7 @@ func c05Propagation(r *Run) {
 		r.Unk("C05.V3", "ttlv", token.NoPos, "package missing")
 		return
 	}
-	extObj := tt.Types.Scope().Lookup("extension")
+	extObj := tt.Types.Scope().Lookup(curTypeName(ttlvPath, "extension"))
 	if extObj == nil {
 		r.Unk("C05.V3", "ttlv.extension", token.NoPos, "anchor missing")
 		return
@@ -419,7 +419,7 @@ func c05Propagation(r *Run) {
 		allInstrs(fn, func(in ssa.Instruction) {
 			switch x := in.(type) {
 			case *ssa.Store:
-				if _, fld, ok := fieldAddrOf(x.Addr); ok && fld.Name() == "version" && fld.Pkg() != nil && fld.Pkg().Path() == tt.PkgPath {
+				if _, fld, ok := fieldAddrOf(x.Addr); ok && fname(fld) == "version" && fld.Pkg() != nil && fld.Pkg().Path() == tt.PkgPath {
 					if st := derefStruct(x.Addr.(*ssa.FieldAddr).X.Type()); st != nil && typeName(x.Addr.(*ssa.FieldAddr).X.Type()) == "extension" {
 						k := fnKey(fn)
 						key := k + "/store-version"
@@ -457,7 +457,7 @@ func c05Propagation(r *Run) {
 		resets := false
 		allInstrs(cf, func(in ssa.Instruction) {
 			if st, ok := in.(*ssa.Store); ok && isNilConst(st.Val) {
-				if _, fld, ok := fieldAddrOf(st.Addr); ok && fld.Name() == "version" {
+				if _, fld, ok := fieldAddrOf(st.Addr); ok && fname(fld) == "version" {
 					resets = true
 				}
 			}
